@@ -318,3 +318,15 @@ func FuzzProperty(f *testing.F, id string) {
 		rt.Fatalf("%s violated: %v\ncase: %s\n%s", id, err, st.curDesc, st.curJSON)
 	}))
 }
+
+// fuzzFail is used by the byte-level fuzz targets: it writes the failing input as a replayable
+// case of the property (same JSON format as a rapid failure) and fails the fuzz execution.
+func fuzzFail(t *testing.T, id string, c interface{}, err error) {
+	st := newStats(id)
+	st.begin(c)
+	if out := os.Getenv("VERIF_FUZZ_OUT"); out != "" {
+		b, _ := json.MarshalIndent(failRecord{Property: id, Message: err.Error(), Describe: st.curDesc, Case: st.curJSON}, "", " ")
+		_ = os.WriteFile(filepath.Join(out, fmt.Sprintf("fuzzfail-%016x.json", st.curHash)), b, 0o644)
+	}
+	t.Fatalf("%s violated: %v\ncase: %s", id, err, st.curDesc)
+}
